@@ -196,3 +196,49 @@ def subalign(facts: CppFacts):
         raise AnalysisError("no self-typed sub-buffer alias (ContiguousBuffer::OffsetStorageType) found")
     res.analysed = [MEM]
     return res
+
+
+def clamp(facts: CppFacts):
+    """R-CLAMP (C04): a sub-buffer handed out by GetOffsetStorage(offset, size) of a pointer-based buffer never
+    extends past its parent: the size given to the result depends on the parent's `size_` (it is clamped), and the
+    unsigned difference `size_ - offset` is only evaluated in the arm of a comparison between `size_` and `offset`
+    (no wrap-around when offset lies past the end)."""
+    res = RuleResult("R-CLAMP")
+    for m in facts.methods:
+        if m.name != "GetOffsetStorage" or not re.search(r"\bbytes_\s*\+", m.body):
+            continue
+        short = m.cls.rsplit("::", 1)[-1]
+        pnames = [p[1] for p in m.params]
+        if len(pnames) != 2:
+            raise AnalysisError(f"{short}::GetOffsetStorage: expected (offset, size), got {pnames}")
+        off, size = pnames
+        res.instances += 1
+        # the braced initialiser that carries `bytes_ + offset`
+        mm = re.search(r"\{\s*bytes_\s*\+\s*" + re.escape(off) + r"\s*,(.*?)\}\s*;", m.body, re.S)
+        if not mm:
+            res.add(f"{m.file}|{short}::GetOffsetStorage|shape", "the sub-buffer is not constructed as {bytes_ + offset, <size>}",
+                    m.file, m.line, f"{short}::GetOffsetStorage")
+            continue
+        size_expr = " ".join(tokens(mm.group(1)))
+        res.instances += 2
+        if not re.search(r"\bsize_\b", size_expr):
+            res.add(f"{m.file}|{short}::GetOffsetStorage|unclamped", f"the sub-buffer's size is `{size_expr}`, which does not depend "
+                    "on the parent's size_: a field that extends past the end of the buffer gets a view larger than the memory "
+                    "behind it (out-of-bounds reads pass IsComplete())", m.file, m.line, f"{short}::GetOffsetStorage")
+            continue
+        if re.search(r"\bsize_\s*-\s*" + re.escape(off) + r"\b", size_expr):
+            guard = re.search(r"(\bsize_\s*<\s*" + re.escape(off) + r"\b|\b" + re.escape(off) + r"\s*>\s*size_\b)\s*\?\s*0\s*:", size_expr) \
+                or re.search(r"(\bsize_\s*>=\s*" + re.escape(off) + r"\b|\b" + re.escape(off) + r"\s*<=\s*size_\b)\s*\?", size_expr)
+            if not guard:
+                res.add(f"{m.file}|{short}::GetOffsetStorage|underflow", f"`size_ - {off}` in `{size_expr}` is not the arm of a "
+                        f"comparison between size_ and {off}: for an offset past the end the unsigned difference wraps and the "
+                        "sub-buffer claims almost the whole address space", m.file, m.line, f"{short}::GetOffsetStorage")
+        if not re.search(r"\b(min)\b", size_expr) and not re.search(r"\b" + re.escape(size) + r"\s*<", size_expr):
+            res.add(f"{m.file}|{short}::GetOffsetStorage|nomin", f"the sub-buffer's size `{size_expr}` is not the smaller of the "
+                    f"requested `{size}` and what is left of the parent", m.file, m.line, f"{short}::GetOffsetStorage")
+        if len(res.samples) < 2:
+            res.samples.append(f"{short}::GetOffsetStorage size: {size_expr}")
+    if res.instances == 0:
+        raise AnalysisError("no pointer-based GetOffsetStorage found")
+    res.analysed = [MEM]
+    return res
